@@ -31,10 +31,11 @@ for d in sorted(glob.glob(os.path.join(V, "seeded", "*"))):
     t = m.get("thorough_result", {}).get("exit", "") if isinstance(m.get("thorough_result"), dict) else ""
     hist = ", ".join(str((h or {}).get("exit")) for h in m.get("history", []) if h)
     out.append("| %s | %s | %s | %s | %s | %s |" % (m["id"], m["property"], need, q, t, hist))
-out += ["", "### 12.3 Per-property implementation notes", "",
+out += ["", "### 12.3 Per-property and per-growth-item implementation notes", "",
+        "Growth items (`Gnn`, DESIGN section 5 / BUILDERS.md growth brief) extend the specification beyond the twenty listed properties; each has its own statement at the top of its notes, its own `./check Gnn quick|thorough`, and is not part of MANIFEST.json's property claims.", "",
         "Included verbatim from `notes/Cxx.md` (written by the builder of each check: constants, measured state counts, what is compared, "
         "mutations tried, deviations from sections 1-11, limits).", ""]
-for f in sorted(glob.glob(os.path.join(V, "notes", "C*.md"))):
+for f in sorted(glob.glob(os.path.join(V, "notes", "[CG]*.md"))):
     pid = os.path.basename(f)[:-3]
     body = open(f).read().strip()
     body = re.sub(r"^(#+) ", lambda m: "#" * min(6, len(m.group(1)) + 3) + " ", body, flags=re.M)
